@@ -5,5 +5,5 @@ cd /repo || exit 2
 if ! git diff --quiet; then echo "repo dirty"; exit 2; fi
 git apply "$P" || { echo "patch does not apply"; exit 2; }
 trap 'git -C /repo checkout -- . ' EXIT INT TERM
-FJVERIF_REPLAY_DIR=/tmp/fjverif-mutant-replays /verif/check "$ID" "$@"
+FJVERIF_EVIDENCE_DIR=/tmp/fjverif-mutant-evidence FJVERIF_REPLAY_DIR=/tmp/fjverif-mutant-replays /verif/check "$ID" "$@"
 echo "exit=$?"
